@@ -883,29 +883,40 @@ def apply_obstruct(c, env):
 
 
 def apply_damage(c, env):
-    """ENVIRONMENT (harness action): one chunk file of the FIRST scale of an
-    unsharded dataset is removed (c['m'] = 'remove') or cut to half its length
-    ('truncate').  Refused (exit 1) without such a file."""
+    """ENVIRONMENT (harness action): the LAST chunk file (largest coordinates) of
+    the FIRST scale of an unsharded dataset is removed (c['m'] = 'remove'), cut
+    to half its length ('truncate') or moved aside ('hide'; op Restore puts it
+    back).  Refused (exit 1) without such a file."""
     d = env["dirs"][c["d"]]
     try:
         with open(os.path.join(d, "info")) as f:
             key = json.load(f)["scales"][0]["key"]
     except (OSError, ValueError, KeyError, IndexError):
         return 1
+    if c["op"] == "Restore":
+        hidden = env.setdefault("hidden", {}).pop(c["d"], None)
+        if not hidden:
+            return 1
+        os.replace(hidden[1], hidden[0])
+        return 0
     found = []
     for root, _, files in os.walk(os.path.join(d, key)):
         for fn in files:
             rel = os.path.relpath(os.path.join(root, fn), os.path.join(d, key))
             if _CHUNK_FLAT.match(rel) or _CHUNK_DEEP.match(rel):
-                found.append(os.path.join(root, fn))
+                found.append((tuple(int(v) for v in re.findall(r"\d+", rel)), os.path.join(root, fn)))
     if not found:
         return 1
-    p = sorted(found)[-1]
+    p = max(found)[1]
     if c["m"] == "truncate":
         with open(p, "rb") as f:
             data = f.read()
         with open(p, "wb") as f:
             f.write(data[:len(data) // 2])
+    elif c["m"] == "hide":
+        aside = os.path.join(os.path.dirname(d), "hidden_" + c["d"])
+        os.replace(p, aside)
+        env.setdefault("hidden", {})[c["d"]] = (p, aside)
     else:
         os.remove(p)
     return 0
@@ -1106,8 +1117,8 @@ class Session:
             rc, out, tail, args = apply_obstruct(c, env), "", "", ["<obstruct %s>" % c["m"]]
         elif c["op"] == "Rechunk":
             rc, out, tail, args = apply_rechunk(c, env), "", "", ["<re-tile dataset %s>" % c["m"]]
-        elif c["op"] == "Damage":
-            rc, out, tail, args = apply_damage(c, env), "", "", ["<%s one chunk file>" % c["m"]]
+        elif c["op"] in ("Damage", "Restore"):
+            rc, out, tail, args = apply_damage(c, env), "", "", ["<%s one chunk file>" % (c["m"] if c["op"] == "Damage" else "restore")]
         else:
             if c["op"] == "Convert" and c["m"] == "srcfault":
                 if not self.servers:
